@@ -47,7 +47,7 @@ func init() {
 			select {
 			case c := <-acc:
 				sess = append(sess, c)
-			case <-time.After(3 * time.Second):
+			case <-time.After(10 * time.Second):
 				return []Tok{TW("setup-failed")}
 			}
 		}
